@@ -666,6 +666,7 @@ func (k *Checker) checkSnapshotStep(n *Node, pre, post *raft.VerifState, ctx *ca
 		if pre.LastIndex > pre.Committed {
 			k.c.stats.probe("snapshot_replaced_divergent_tail")
 		}
+		x.snapBaseIdx, x.snapBaseConf = idx, want
 	default:
 		// Not installed and not matching. The statement does not oblige a node to
 		// accept a snapshot (raft refuses e.g. for non-members, non-followers and
